@@ -9,6 +9,7 @@ mod abort;
 mod boxinit;
 mod elem;
 mod flatten;
+mod overflow;
 mod split;
 mod strfail;
 mod strsplit;
@@ -835,6 +836,7 @@ fn main() {
                     results.push(split::explore_alloc_failures(thorough, deadline));
                     results.push(strfail::explore_str_failures(thorough, deadline));
                     results.push(explore_abort_probes(thorough));
+                    results.push(overflow::explore(thorough));
                 }
                 _ => panic!("unknown property"),
             };
@@ -855,6 +857,13 @@ fn main() {
                 match abort_verdict(ci.parse().expect("ci"), name) {
                     Ok(_) => println!("REPLAY OK"),
                     Err(m) => println!("REPLAY VIOLATION step=0 msg={m}"),
+                }
+                return;
+            }
+            if case.starts_with("overflow:") {
+                match overflow::replay(&case) {
+                    Some(m) => println!("REPLAY VIOLATION step=0 msg={m}"),
+                    None => println!("REPLAY OK"),
                 }
                 return;
             }
